@@ -104,7 +104,8 @@ func ZZ_C12_O12() {
 // in full, to their owners, once.
 func ZZ_C12_O3() {
 	w := &zzWorld{gov: zzNewGov(), accts: zzNewAccts(3)}
-	w.sc = zzNewCtrler(zzverif.TempDir(), w.gov)
+	o3dir := zzverif.TempDir()
+	w.sc = zzNewCtrler(o3dir, w.gov)
 	n := 1 + zzverif.Choose("nfrozen", 3)
 	type fz struct {
 		owner  int
@@ -121,6 +122,12 @@ func ZZ_C12_O3() {
 	}
 	if _, _, xerr := w.sc.Commit(); xerr != nil {
 		panic(xerr)
+	}
+	if zzverif.Choose("restart.during.unbonding", 2) == 1 {
+		// the node restarts while the stakes are unbonding: a new controller on the same data
+		// (a new process image on a copy of the data directory, as in the node-level harnesses)
+		w.sc = zzNewCtrler(zzverif.CopyDir(o3dir), w.gov)
+		zzverif.Reach("O3 restarted")
 	}
 	h := zzverif.NondetI64In("height", 2, 1<<40)
 	var bal0 [3]*uint256.Int
